@@ -3,6 +3,7 @@
    from the source on every run (Gen/FatSkel.v); semantics and soundness in Fat/Skel*.v. *)
 From Coq Require Import List Arith Bool.
 From NV Require Import Fat.SkelDefs Fat.SkelProofs Fat.SpanProofs Gen.FatSkel Fat.SkelTheorems.
+From NV Require Locks.Export.
 Import ListNotations.
 
 (* the executable check on the current source *)
@@ -91,3 +92,18 @@ Example C14_single_section_nonvacuous :
   span_ok 0 0 false [EEnter 0 7; EExit; EAcq LD; EAcq LW; EPoke 0; ERel LW; EPoke 1; ERel LD; EYield] = true /\
   (8 < List.length atomic_entries) /\ (5 < List.length atomic_read_entries).
 Proof. repeat split; vm_compute; auto. Qed.
+
+(* serial equivalence rests on the lock itself: while a thread holds the exclusive side no other thread holds either side, and nobody waits for ever
+   (statements in Locks/Export.v; the lock model is the text of the current nobodd/locks.py: per-method digests regenerated on
+   every run) *)
+Theorem C14_lock_model_matches_source : NV.Locks.Export.model_matches_source_statement.
+Proof. exact NV.Locks.Export.model_matches_source_holds. Qed.
+Print Assumptions C14_lock_model_matches_source.
+
+Theorem C14_lock_exclusion : NV.Locks.Export.exclusion_statement.
+Proof. exact NV.Locks.Export.exclusion_holds. Qed.
+Print Assumptions C14_lock_exclusion.
+
+Theorem C14_lock_no_deadlock : NV.Locks.Export.no_deadlock_statement.
+Proof. exact NV.Locks.Export.no_deadlock_holds. Qed.
+Print Assumptions C14_lock_no_deadlock.
